@@ -26,6 +26,7 @@ type fnInfo struct {
 	name     string
 	intr     intrinsicFn
 	redirect *ssa.Function
+	rmode    string
 	sched    bool // call is a scheduling point
 	inRepo   bool
 	atomic   bool // library function executed as one atomic step (reduction a)
@@ -60,6 +61,7 @@ func (p *Prog) info(fn *ssa.Function) *fnInfo {
 	fi.intr, fi.sched = lookupIntrinsic(fi.name, fn)
 	if rd, ok := redirects[fi.name]; ok {
 		fi.redirect = p.lookupFunc(rd)
+		fi.rmode = redirectMode[fi.name]
 	}
 	pk := fn.Pkg
 	if pk == nil {
@@ -210,6 +212,7 @@ type Machine struct {
 	schedPoints int
 	labels      []string
 	choices      []int
+	modes        map[string]bool
 	pendingModel map[string]uint64
 	ids          int
 	stepDepth    int
@@ -591,7 +594,7 @@ func (m *Machine) invoke(th *Thread, tgt callTarget, args []Value, retSlot int, 
 		}
 		return true
 	}
-	if fi.redirect != nil {
+	if fi.redirect != nil && (fi.rmode == "" || m.modes[fi.rmode]) {
 		fn = fi.redirect
 		tgt.binds = nil
 	}
@@ -614,7 +617,7 @@ func (m *Machine) callSync(th *Thread, fv Value, args []Value) Value {
 		return res
 	}
 	fn := tgt.fn
-	if fi.redirect != nil {
+	if fi.redirect != nil && (fi.rmode == "" || m.modes[fi.rmode]) {
 		fn = fi.redirect
 		tgt.binds = nil
 	}
@@ -826,7 +829,7 @@ func (m *Machine) invokeDeferred(th *Thread, owner *Frame, d *deferred) {
 	}
 	fn := d.target.fn
 	binds := d.target.binds
-	if fi.redirect != nil {
+	if fi.redirect != nil && (fi.rmode == "" || m.modes[fi.rmode]) {
 		fn, binds = fi.redirect, nil
 	}
 	fr := m.pushFrame(th, fn, binds, d.args, -1)
